@@ -38,6 +38,7 @@ type vfUpReply struct {
 	Headers [][2]string
 	Body    []byte
 	Fault   string // "", "reset", "hang"
+	Early   bool   // send "103 Early Hints" before the final response
 }
 
 type vfUpstream struct {
@@ -124,6 +125,11 @@ func (u *vfUpstream) ServeHTTP(rw http.ResponseWriter, r *http.Request) {
 		w.fault("upstream:hang")
 		<-r.Context().Done()
 		return
+	}
+	if rep.Early {
+		rw.Header().Set("Link", "</early.css>; rel=preload; as=style")
+		rw.WriteHeader(http.StatusEarlyHints)
+		rw.Header().Del("Link")
 	}
 	for _, kv := range rep.Headers {
 		rw.Header().Add(kv[0], kv[1])
